@@ -352,7 +352,8 @@ RunResult run_plan(const std::vector<std::string>& plan, uint64_t run_index, sim
    RunResult rr;
    // a leak is only reported if it repeats: one-time lazy initialisation inside
    // libstdc++ (locale facets etc.) must not be mistaken for a handle leak
-   for (int attempt = 0; attempt < 3; ++attempt) {
+   // (12 repetitions: a bounded free-list / object pool behind new/free stops growing after a few and is not a leak)
+   for (int attempt = 0; attempt < 12; ++attempt) {
       const long live0 = g_live_allocs;
       long delta = 0;
       {
@@ -370,7 +371,7 @@ RunResult run_plan(const std::vector<std::string>& plan, uint64_t run_index, sim
       }
       delta = g_live_allocs - live0;
       if (delta == 0) return rr;
-      if (attempt == 2) { rr.sig = "leak"; rr.detail = std::to_string(delta) + " allocation(s) still live after all handles were freed (repeated 3 times)"; }
+      if (attempt == 11) { rr.sig = "leak"; rr.detail = std::to_string(delta) + " allocation(s) still live after all handles were freed (and again in each of 12 repetitions of the history)"; }
    }
    return rr;
 }
